@@ -403,6 +403,19 @@ def trimStartMatchesB (pat : Bytes) : Nat → Bytes → Bytes
 def trimEndMatchesB (pat : Bytes) (bs : Bytes) : Bytes :=
   (trimStartMatchesB pat.reverse bs.length bs.reverse).reverse
 
+/-- byte level `trim(pattern)`: all leading matches are removed first, then all trailing matches **of what
+remains** (`s.trim_start_matches(p).trim_end_matches(p)`) — not the two trims taken independently on the
+input, which differs when occurrences at the two ends overlap (`'aaa'.trim 'aa'` is `'a'`) -/
+def trimMatchesB (pat bs : Bytes) : Bytes :=
+  trimEndMatchesB pat (trimStartMatchesB pat bs.length bs)
+
+/-- the *wrong* reading (both ends trimmed independently on the whole input, the ranges intersected) —
+defined only to state that the model differs from it -/
+def trimMatchesIndependentB (pat bs : Bytes) : Bytes :=
+  let a := bs.length - (trimStartMatchesB pat bs.length bs).length
+  let b := (trimEndMatchesB pat bs).length
+  (bs.drop a).take (b - a)
+
 def trimOp (U : UFacts) (s : KStr) (pat : Option Bytes) : Res :=
   let b := s.bytes
   let ts := match pat with
